@@ -301,7 +301,7 @@ fn run_parser(sdl: bool, src: &str) -> (&'static str, &'static str, Vec<Vec<J>>)
 /// One representative character per code-point class of StringLitP.tla.
 fn class_char(c: &str) -> char {
     match c {
-        "Q" => '"', "BS" => '\\', "LF" => '\n', "CR" => '\r', "SP" => ' ', "TAB" => '\t', "U4" => '\u{1F600}',
+        "Q" => '"', "BS" => '\\', "LF" => '\n', "CR" => '\r', "SP" => ' ', "TAB" => '\t', "U4" => '\u{1F600}', "NB" => '\u{A0}', "LS" => '\u{2028}',
         "MINUS" => '-', "DOT" => '.', "PLUS" => '+', "SLASH" => '/', "HASH" => '#', "COMMA" => ',', "US" => '_',
         "EU" => 'E', "x" => 'x',
         s if s.chars().count() == 1 => s.chars().next().unwrap(),
